@@ -22,6 +22,7 @@
 #include "ops_c11.c"
 #include "ops_c14.c"
 #include "ops_c12.c"
+#include "ops_c15.c"
 
 static void on_alarm(int sig)
 {
@@ -60,6 +61,7 @@ int main(void)
     if (!done) done = dispatch_c11(&t);
     if (!done) done = dispatch_c14(&t);
     if (!done) done = dispatch_c12(&t);
+    if (!done) done = dispatch_c15(&t);
     if (!done) printf("R skip\n");
     printf("E\n");      /* end of this op: everything before a crash belongs to the op in flight */
     fflush(stdout);
